@@ -5980,22 +5980,28 @@ func (a *Agent) doPoll() error {
 		return nil
 	}
 
-	// Check if we were woken during the poll - if so, don't disconnect
-	// This is a fallback in case state changed but signal wasn't received
-	if a.sleepMgr != nil && a.sleepMgr.GetState() == sleep.StateAwake {
-		a.logger.Debug("poll cycle ended but agent is awake - keeping listeners")
-		// Listeners are already registered, nothing more to do
-		return nil
-	}
+	// Disconnect again, unless we were woken during the poll (this is also the
+	// fallback in case the state changed but the signal wasn't received). The check
+	// and the disconnect are one step with respect to Wake: a wake that is still
+	// reconnecting is waited for, and its connections are then left alone.
+	disconnect := func() {
+		if err := a.peerMgr.DisconnectAll(); err != nil {
+			a.logger.Warn("error disconnecting after poll",
+				logging.KeyError, err)
+		}
 
-	// Disconnect again (still sleeping)
-	if err := a.peerMgr.DisconnectAll(); err != nil {
-		a.logger.Warn("error disconnecting after poll",
-			logging.KeyError, err)
+		// Close poll listeners and remove from agent listeners
+		a.closePollListeners(pollListeners)
 	}
-
-	// Close poll listeners and remove from agent listeners
-	a.closePollListeners(pollListeners)
+	if a.sleepMgr != nil {
+		if !a.sleepMgr.IfStillPolling(disconnect) {
+			a.logger.Debug("poll cycle ended but agent is awake - keeping listeners")
+			// Listeners are already registered, nothing more to do
+			return nil
+		}
+	} else {
+		disconnect()
+	}
 
 	a.logger.Debug("poll cycle complete")
 	return nil
